@@ -657,4 +657,15 @@ example (tail : Bytes) : GoodFrame32 1 ⟨fmOvsFrame ++ tail, 112⟩ := by
   subst this
   exact ⟨fun _ => fmOvsFrame_inframe2 tail, fun h => absurd h (by decide), fun h => absurd h (by decide)⟩
 
+/-- the round-3 over-read flow-mod fails the FINAL flow-mod predicate: exception (b) of `C10c_parse_local5` is witnessed -/
+theorem C10c_flowmod_cex_not_inframe2 : ¬ FlowModInFrame2 fmCexT := fmCex_not_inframe2
+
+/-- the round-3 over-read multipart reply fails the FINAL flow-stats predicate: exception (c) is witnessed -/
+theorem C10c_flowstats_cex_not_inframe2 : ¬ FlowStatsInFrame2 mpCexT := mpCex_not_inframe2
+
+/-- an Open-vSwitch-style flow-stats reply (128 bytes, one record: apply-actions [set-field, resubmit-table, ct_clear])
+    passes the final flow-stats predicate, whatever follows it in the buffer -/
+theorem C10c_flowstats_ovs_conformant_inframe (tail : Bytes) : FlowStatsInFrame2 ⟨mpOvsFrame ++ tail, 128⟩ :=
+  mpOvsFrame_inframe2 tail
+
 end OFV.Props.C10c
